@@ -395,7 +395,7 @@ func check(c taintCase) (fl *harness.Failure, st stats) {
 
 func TestCheckTaint(t *testing.T) {
 	s := harness.NewSub("tainted-documents",
-		"documents in which every value kind (given names, surnames, suffixes, further names and all NAME parts, sex, event values, dates alone and behind a keyword, places and countries, causes, notes at three levels, occupations, event types, identifiers, custom tag values, inline sources, marriage and divorce data, source titles and five kinds of source properties incl. nested ones, optionally the pointers themselves) carries a unique token Tq<n>x<\"'&>y (1..4 people, 0..2 families, 0..2 sources; one document in 50 with 15..40 people, 5..12 families, 3..8 sources); published with a visibility and a random page-group mask, then the diff report (2 show x 2 sort) against an edited copy in that visibility, then the same document objects again with another visibility (all page groups, and the diff report), then a last time with everybody shown, and six queries in HTML format; in half of the documents every third person is living, so that it depends on the mode and the order of rendering whether a value was rendered before; oracle: wherever a token id occurs, the bytes up to the closing y contain no raw < > \" ' and no bare &, every page tokenises and is well nested; each case is also run with benign values as a control; non-trivial = at least 5 distinct value kinds reach an output")
+		"documents in which every value kind (given names, surnames, suffixes, further names and all NAME parts, sex, event values, dates alone and behind a keyword, places and countries, causes, notes at three levels, occupations, event types, identifiers, custom tag values, inline sources, marriage and divorce data, source titles and five kinds of source properties incl. nested ones, optionally the pointers themselves) carries a unique token Tq<n>x<\"'&>y (1..4 people, 0..2 families, 0..2 sources; one document in 100 with 15..30 people, 5..12 families, 3..8 sources); published with a visibility and a random page-group mask, then the diff report (2 show x 2 sort) against an edited copy in that visibility, then the same document objects again with another visibility (all page groups, and the diff report), then a last time with everybody shown, and six queries in HTML format; in half of the documents every third person is living, so that it depends on the mode and the order of rendering whether a value was rendered before; oracle: wherever a token id occurs, the bytes up to the closing y contain no raw < > \" ' and no bare &, every page tokenises and is well nested; each case is also run with benign values as a control; non-trivial = at least 5 distinct value kinds reach an output")
 	s.Rapid(t, harness.Share(harness.Pick(2000, 50000)), 180, func(rt *rapid.T) {
 		c := taintCase{
 			People: rapid.IntRange(1, 4).Draw(rt, "people"), Families: rapid.IntRange(0, 2).Draw(rt, "families"), Sources: rapid.IntRange(0, 2).Draw(rt, "sources"),
@@ -403,9 +403,9 @@ func TestCheckTaint(t *testing.T) {
 			Mask: rapid.SampledFrom([]int{63, 63, 63, 1, 2, 4, 8, 16, 32, 62, 31}).Draw(rt, "mask"), Extras: rapid.IntRange(0, 255).Draw(rt, "extras"),
 			PointerTaint: rapid.IntRange(0, 3).Draw(rt, "pointerTaint") == 0,
 		}
-		// (one document in 50 is big: 15..40 people, 5..12 families, 3..8 sources)
-		if rapid.IntRange(0, 49).Draw(rt, "big") == 25 {
-			c.People, c.Families, c.Sources = rapid.IntRange(15, 40).Draw(rt, "bigPeople"), rapid.IntRange(5, 12).Draw(rt, "bigFamilies"), rapid.IntRange(3, 8).Draw(rt, "bigSources")
+		// (one document in 100 is big: 15..30 people, 5..12 families, 3..8 sources)
+		if rapid.IntRange(0, 99).Draw(rt, "big") == 50 {
+			c.People, c.Families, c.Sources = rapid.IntRange(15, 30).Draw(rt, "bigPeople"), rapid.IntRange(5, 12).Draw(rt, "bigFamilies"), rapid.IntRange(3, 8).Draw(rt, "bigSources")
 		}
 		for _, benign := range []bool{true, false} {
 			c.Benign = benign
